@@ -28,5 +28,14 @@ package repeat
 //@   props C01
 //@ func LineExlusive frameonly
 //@   props C01
-//@ func Mesh frameonly
-//@   props C01
+// repeat.Mesh: appending transformed copies of a well-formed mesh keeps the result well-formed (loop invariant: the
+// accumulated mesh is well-formed and has the input's topology).
+//@ func Mesh
+//@   props C01 C02
+//@   requires well_formed_input: modeling.wf(mesh) && has(mesh.v3Data, "Position")
+//@   returns r
+//@   ensures [C02] well_formed_lengths: modeling.sameLen(r)
+//@   ensures [C02] well_formed_indices: modeling.idxOK(r)
+//@   ensures [C02] well_formed_topology: modeling.topoOK(r)
+//@   loop 1:
+//@     invariant [C02] accumulated: modeling.sameLen(result) && modeling.idxOK(result) && modeling.topoOK(result) && modeling.emptyOK(result) && result.topology == mesh.topology
